@@ -1,4 +1,5 @@
 import Martian.Lemmas.H2Hpack
+import Martian.Generated.H2Relay
 /-!
 C09 — "for any history of SETTINGS (initial window size, maximum frame size) …": a SETTINGS
 frame is a LIST of (identifier, value) pairs. An identifier may occur several times; the endpoint
@@ -439,5 +440,24 @@ def sampleEvs : List Ev :=
 
 example : (runSys {} sampleEvs).map (fun s => (relayView s .c2s, relayView s .s2c)) =
     some (⟨7, 20000, 256⟩, ⟨9, 16384, 4096⟩) := by decide
+
+/-! ### Facts regenerated from `/repo` on every run (`go/cmd/vextract/facts_c08.go`) -/
+
+/-- How the relay reads a SETTINGS frame is how `settingsLoop` / `applySettings` read it: it iterates
+over the frame in order (`ForeachSetting`; never `SettingsFrame.Value`, which returns the FIRST
+value of an identifier); HEADER_TABLE_SIZE and MAX_FRAME_SIZE are handed to the peer relay inside
+the loop (mode 1 = every value, in order), INITIAL_WINDOW_SIZE once after the loop with the value
+the loop stored last (mode 2). -/
+theorem facts_settings_read_modes :
+    Generated.H2Relay.settingsIteratedInOrder = true ∧ Generated.H2Relay.tableSizeReadMode = 1 ∧
+    Generated.H2Relay.maxFrameReadMode = 1 ∧ Generated.H2Relay.initialWindowReadMode = 2 := by
+  decide
+
+/-- `updateWindow` obtains the stream's buffer through the creating accessor `relay.outputBuffer`
+(so a WINDOW_UPDATE that arrives before the first frame of the stream is not lost: `getOB` in
+`rstep`), and the connection-level branch falls through to it (`sid = 0` included). -/
+theorem facts_window_update_creates_buffer :
+    Generated.H2Relay.windowUpdateCreatesBuffer = true ∧ Generated.H2Relay.connWindowUpdateFallsThrough = true := by
+  decide
 
 end Martian.Props.C09
